@@ -137,3 +137,24 @@ Theorem C09_whole_run_nonvacuous :
   obs_eq (fst (run_history 30 init_state (ex_hist []))) (fst (run_history 40 init_state (ex_hist [0; 1]%nat))).
 Proof. exact ex_independent. Qed.
 Print Assumptions C09_whole_run_nonvacuous.
+
+(** ** the model's id-keyed tables against the implementation's address-keyed tables (Inv/AddrInv.v) *)
+From CR Require Import AddrInv.
+From Coq Require Import ZArith.
+
+(** every record of every link table names an allocation that has not been released, so under any
+    address assignment the allocator's contract permits, two keys of a table have equal addresses iff
+    they name the same object: replacing ids by addresses (any layout, with reuse) changes no table *)
+Theorem C09_table_keys_have_distinct_addresses :
+  forall s k am o b t o1 k1 n1 o2 k2 n2,
+  Inv s k -> addr_inj (heap_of s) am -> nth_error (heap_of s) o = Some b -> links b = Some t ->
+  In ((o1, k1), n1) t -> In ((o2, k2), n2) t -> (am o1 = am o2 <-> o1 = o2).
+Proof. exact table_keys_distinct_addresses. Qed.
+Print Assumptions C09_table_keys_have_distinct_addresses.
+
+Theorem C09_table_key_against_owner :
+  forall s k am o b t o1 k1 n1,
+  Inv s k -> addr_inj (heap_of s) am -> nth_error (heap_of s) o = Some b -> links b = Some t ->
+  In ((o1, k1), n1) t -> freed b = false -> (am o1 = am o <-> o1 = o).
+Proof. exact table_key_vs_owner. Qed.
+Print Assumptions C09_table_key_against_owner.
